@@ -1,6 +1,8 @@
 #![allow(dead_code)]
 mod crypto;
 mod ledger;
+mod libtap;
+mod oracle_cred;
 mod oracle_tx;
 mod plan;
 mod prng;
